@@ -9,7 +9,7 @@ CONSTANTS
   CMax = 3
   KMax = 3
   CMax2 = 1
-  KMax2 = 2
+  KMax2 = 1
   EMIT = FALSE
 CONSTRAINT InBox
 CHECK_DEADLOCK FALSE
